@@ -569,3 +569,58 @@ Theorem all_closed_once_finish w n ops : all_closed_once (d_finish (d_run w (d_i
 Proof.
   unfold all_closed_once. apply forallb_forall. intros r Hr. apply Nat.eqb_eq. eapply complete_history_closes_once; eauto.
 Qed.
+
+(* ---------- caught exceptions carry their diagnostic ---------- *)
+
+Lemma x_step_log_grows w xs o : exists l, xlog (fst (x_step w xs o)) = xlog xs ++ l.
+Proof.
+  destruct o as [o|k]; simpl.
+  - destruct (d_step w (xd xs) o) as [st' r]. simpl. destruct r; try (exists []; rewrite app_nil_r; reflexivity).
+    eexists; reflexivity.
+  - exists []. rewrite app_nil_r. reflexivity.
+Qed.
+
+Lemma x_run_log_grows w ops : forall xs, exists l, xlog (x_run w xs ops) = xlog xs ++ l.
+Proof.
+  induction ops as [|o ops IH]; intros xs; simpl.
+  - exists []. rewrite app_nil_r. reflexivity.
+  - destruct (x_step_log_grows w xs o) as [l1 E1]. destruct (IH (fst (x_step w xs o))) as [l2 E2].
+    exists (l1 ++ l2). rewrite E2, E1, app_assoc. reflexivity.
+Qed.
+
+(* reading the diagnostic of a caught exception gives the same text whenever it is read: whatever operations (failed or
+   successful opens, look-ups, calls, destructions, other reads) happen in between *)
+Theorem exception_diagnostic_stable w xs ops k d :
+  snd (x_step w xs (XRead k)) = XDiag (Some d) ->
+  snd (x_step w (x_run w xs ops) (XRead k)) = XDiag (Some d).
+Proof.
+  simpl. intros [= H]. destruct (x_run_log_grows w ops xs) as [l E]. rewrite E. f_equal.
+  rewrite nth_error_app1; auto. apply nth_error_Some. congruence.
+Qed.
+
+(* reading changes nothing *)
+Theorem exception_read_is_pure w xs k : fst (x_step w xs (XRead k)) = xs.
+Proof. reflexivity. Qed.
+
+(* the exception caught from a failed open / a failed look-up carries the loader's diagnostic of that very failure, and it
+   is what a read of that exception returns from then on *)
+Theorem caught_exception_carries_its_diagnostic w n ops o dle : let xs := x_run w (x_init n) ops in
+  snd (d_step w (xd xs) o) = DRaise dle ->
+  let xs' := fst (x_step w xs (XOp o)) in
+  snd (x_step w xs' (XRead (length (xlog xs)))) = XDiag (Some dle) /\
+  forall more, snd (x_step w (x_run w xs' more) (XRead (length (xlog xs)))) = XDiag (Some dle).
+Proof.
+  intros xs Hr xs'.
+  assert (E : snd (x_step w xs' (XRead (length (xlog xs)))) = XDiag (Some dle)).
+  { unfold xs'. simpl. destruct (d_step w (xd xs) o) as [st' r] eqn:D. simpl in Hr. subst r. simpl.
+    rewrite nth_error_app2, Nat.sub_diag by auto. reflexivity. }
+  split; auto. intros more. apply exception_diagnostic_stable. exact E.
+Qed.
+
+(* the dl part of an extended run is the plain run of its operations (reads do not touch it) *)
+Lemma x_run_xd w ops : forall xs,
+  xd (x_run w xs ops) = d_run w (xd xs) (flat_map (fun o => match o with XOp o => [o] | XRead _ => [] end) ops).
+Proof.
+  induction ops as [|o ops IH]; intros xs; simpl; auto. rewrite IH. destruct o as [o|k]; simpl; auto.
+  destruct (d_step w (xd xs) o); reflexivity.
+Qed.
